@@ -110,7 +110,11 @@ func (c07) Gen(r *sim.Rand, c *sim.Case, tier string) {
 		}
 		var ops []sim.Op
 		if r.Chance(0.2) { // the document starts as the result of a Markdown conversion
-			ops = append(ops, sim.Op{K: "md", D: s.slot, I: []int{r.Intn(32)}, S: []sim.Str{sim.Str(g.Markdown(Wild || i == listDoc))}})
+			if r.Bool() {
+				ops = append(ops, sim.Op{K: "md", D: s.slot, I: []int{r.Intn(32)}, S: []sim.Str{sim.Str(g.Markdown(Wild || i == listDoc))}})
+			} else { // from a file, through ConvertFile, with the caller's options or with none
+				ops = append(ops, sim.Op{K: "mdfile", D: s.slot, I: []int{r.Range(-1, 15)}, S: []sim.Str{sim.Str(g.Markdown(Wild || i == listDoc))}})
+			}
 		}
 		if sharedStyle {
 			// every document of this run defines the custom style "Section" - each on another base - and uses it for a paragraph
@@ -571,6 +575,8 @@ func (c07) Witnesses() []*sim.Case {
 	return []*sim.Case{
 		mk("process-wide registries: footnotes of two documents", doc(0, fn("a"), fn("b")), doc(2, fn("c"))),
 		mk("process-wide registries: endnotes of two documents", doc(0, en("a")), doc(2, en("c"), en("d"))),
+		mk("converter-options-remember-first-directory (fixed): two Markdown files converted by one Converter without options",
+			doc(0, sim.Op{K: "mdfile", I: []int{-1}, S: []sim.Str{"first ![](pic.png)\n"}}), doc(2, sim.Op{K: "mdfile", I: []int{-1}, S: []sim.Str{"second ![](pic.png)\n"}})),
 		mk("process-wide registries: list definitions of two documents", doc(0, li("x", "number", 1), li("y", "bullet", 1)), doc(2, li("z", "lowerRoman", 1))),
 	}
 }
